@@ -89,11 +89,25 @@ func (w *c15World) inflightReload(ne, gateAt int, extra func()) {
 		close(g.release)
 		return
 	}
-	select {
-	case <-g.entered:
-	case <-time.After(c15Watchdog):
-		// the listener was not invoked gateAt times for gateAt events: leave the verdict to the oracle
-		w.m.Count("gate_not_reached", 1)
+	// the listener parks at the gate - or the watch goroutine is back in its loop without
+	// having invoked the listener gateAt times: leave that verdict to the oracle
+	reached := false
+	vk.WaitUntil(c15Watchdog, func() bool {
+		select {
+		case <-g.entered:
+			reached = true
+			return true
+		default:
+		}
+		return c15WatchersIdle(1)
+	})
+	if !reached {
+		select {
+		case <-g.entered:
+			reached = true
+		default:
+			w.m.Count("gate_not_reached", 1)
+		}
 	}
 	lw.cursor = w.delivered + ne
 	for _, ev := range evs {
